@@ -103,7 +103,8 @@ def gen_sched(g):
 
     def open_doc(p):
         docs[p] = model.lines_from_disk(disk[p].encode("utf-8"))
-        ops.append(gen.did_open(p, disk[p]))
+        # clients number a document's versions from whatever they like at each didOpen
+        ops.append(gen.did_open(p, disk[p], version=rng.choice([1, 1, 1, 0, 7, 100])))
         ops.append({"k": "obs", "what": "buffer"})
 
     for p in paths:
